@@ -27,6 +27,8 @@ COMBOS = [
     ("ben15-5.diff", "chart.py", r"yield curr_header_tag, curr_first_line_index, i - 1", "yield curr_header_tag, curr_first_line_index, i", ["C06", "C02"]),
     # constructor reached through a parameter annotated type[C]
     ("ben15-3.diff", "track.py", r"return bpm_events_type\(events=events, resolution=resolution\)", "return bpm_events_type(events=events[:1] + events[1:], resolution=resolution)", []),
+    # "find the first ... or None" helper followed by the test of its result (T3)
+    ("ben19-5.diff", "track.py", r"(?m)^        return t, data$", "        return types[0], data", ["C14", "C02"]),
     # a private generator fused into the loop that consumes it
     ("ben6-1.diff", "instrument.py", r"(?m)^            left = right$", "            left = right + 1", ["C02", "C18"]),
     ("ben6-1.diff", "instrument.py", r"datas\[last \+ 1\]\.tick == datas\[last\]\.tick", "datas[last + 1].tick >= datas[last].tick", ["C02"]),
